@@ -18,6 +18,8 @@ class UnitCycler:
     def __init__(self, rng):
         self.pos = {k: rng.randrange(len(v)) for k, v in SI.items()}
         self.used = {k: set() for k in SI}
+        self.rng = rng
+        self.inplace = 0
 
     def next(self, kind, avoid=None):
         units = list(SI[kind].keys())
@@ -36,7 +38,12 @@ def reexpress(cyc, kind, vu, keep_deg_exact=False):
     u = cyc.next(kind, avoid=vu[1])
     if keep_deg_exact and u == 'deg':
         u = cyc.next(kind, avoid='deg')
-    return [float(F(vu[0]) * SI[kind][vu[1]] / SI[kind][u]), u]
+    out = [float(F(vu[0]) * SI[kind][vu[1]] / SI[kind][u]), u]
+    if cyc.rng.random() < 0.2:
+        # the other way of re-expressing an input: the object is created in the original unit and converted in place
+        cyc.inplace += 1
+        out.append(vu[1])
+    return out
 
 
 def reunit(cyc, spec):
@@ -214,6 +221,7 @@ def run_C07(ctx):
             spec = worm_spec([pa, 'deg'])
             spec2 = worm_spec(gen.in_unit(rng, 'Angle', math.radians(pa), False, unit=u) if u != 'deg' else [pa, 'deg'])
             eval_meta(ctx, {'t': 'meta', 'spec': spec, 'spec2': spec2})
+    ctx.count('inputs re-expressed by in-place conversion', cyc.inplace)
     for kind, used in cyc.used.items():
         ctx.count(f'units of {kind} used: {len(used)}/{len(SI[kind])}')
     ctx.rule = ('random models and schedules (controllers of all four kinds, stop conditions, continuations) run twice: as '
